@@ -542,6 +542,20 @@ func ruleFillWithinCapacity(c *Ctx) {
 				if m == strip(mk.Size) {
 					return true
 				}
+				// cap(ch) of the channel the send is on
+				if cl, ok := m.(*ssa.Call); ok {
+					if b, ok := cl.Call.Value.(*ssa.Builtin); ok && b.Name() == "cap" && len(cl.Call.Args) == 1 {
+						a := strip(cl.Call.Args[0])
+						if a == ch {
+							return true
+						}
+						_, fa, ok1 := fieldLoad(a)
+						_, fc, ok2 := fieldLoad(ch)
+						if ok1 && ok2 && fa == fc && p.sameObjectPath(a, ch, 0) {
+							return true
+						}
+					}
+				}
 				_, f, ok := fieldLoad(m)
 				if !ok {
 					return false
